@@ -182,3 +182,9 @@ def r5(rr, repo):
 def r6(rr, repo):
     from .c04 import request_mark_obligations
     request_mark_obligations(rr, repo)
+
+
+@rule('C05.R7', "a '?' attachment cannot change how a synchronized attachment of the same consumer is counted: every connection has its own random unique id and the publisher keys its wait set by client id + unique id (shares C04.R6)")
+def r7(rr, repo):
+    from .c04 import r6 as c04r6
+    c04r6(rr, repo)
